@@ -263,6 +263,8 @@ def profile(kind: str):
         return P(max_stmts=6, functions=False)
     if kind == "funcs":
         return P(max_stmts=5, functions=True)
+    if kind == "loopctl":
+        return P(max_stmts=5, functions=False, loopctl_heavy=True, index_lists=False, max_depth=1)
     if kind == "calls":
         return P(max_stmts=4, functions=True, call_heavy=True, loops=True, for_list=False, index_lists=False, max_depth=1)
     if kind == "terminating":
